@@ -6,6 +6,7 @@ package c05
 import (
 	"errors"
 	"fmt"
+	"github.com/bitcoin-sv/block-headers-service/config"
 	"math/rand"
 	"os"
 	"os/exec"
@@ -60,14 +61,14 @@ func sqlRowsLeft(st *rig.Stack) int {
 
 // faultCtl drives the decorator: counts writes, injects one fault at write index K.
 type faultCtl struct {
-	writes    int    // writes seen so far (global index)
-	inAdd     int    // writes seen within the current Add
-	K         int    // -1: no fault
-	Kind      string
-	fired     bool
-	firedOp   string // e.g. UpdateState#1
-	realKill  bool   // SIGKILL the own process instead of panicking
-	opsInAdd  []string
+	writes   int // writes seen so far (global index)
+	inAdd    int // writes seen within the current Add
+	K        int // -1: no fault
+	Kind     string
+	fired    bool
+	firedOp  string // e.g. UpdateState#1
+	realKill bool   // SIGKILL the own process instead of panicking
+	opsInAdd []string
 }
 
 func (f *faultCtl) hooks() *deco.Hooks {
@@ -337,6 +338,12 @@ func (e *env) oneFault(caseID string, dir string, hist gen.History, baseline sna
 		}
 		// restart without faults (abandon everything, re-run database.Init on the same file)
 		st.Opt.WrapHeaders = nil
+		if k%3 == 1 {
+			// a deployment that preloads its database (db.prepared_db: true) restarts with that same configuration: the
+			// store is not empty, so the preload must leave it alone
+			st.Opt.Config = func(c *config.AppConfig) { c.Db.PreparedDb = true }
+			r.Count("restarts_with_prepared_db_enabled", 1)
+		}
 		if err := st.Restart(); err != nil {
 			r.Violate("restart-failed|"+kind+"|"+f.firedOp, "database.Init failed after the fault: "+err.Error(), caseID, detail)
 			return
